@@ -642,9 +642,23 @@ def sym_sqrt(x):
                 return SReal(z3.RealVal(fractions.Fraction(n, d)))
     key = ("sqrt", t.sexpr())
     r = cx.memo.get(key)
+    if r is None and cx.rules:
+        # radicands that are equal modulo the path's relations share one witness
+        from . import poly
+        nf = poly.normal_form_key(t, cx.rules)
+        if nf is not None:
+            key2 = ("sqrt-nf", nf)
+            r = cx.memo.get(key2)
+            if r is None:
+                cx.memo["pending-sqrt-nf"] = key2
+            else:
+                cx.memo[key] = r
     if r is None:
         r = z3.Real("sqrt!%d" % cx.fresh_id())
         cx.memo[key] = r
+        k2 = cx.memo.pop("pending-sqrt-nf", None)
+        if k2 is not None:
+            cx.memo[k2] = r
         cx.axiom(z3.And(r >= 0, r * r == t), about=r)
         cx.rules.append((r, 2, t))
         cx.obligation(t >= 0, "sqrt of a negative value")
@@ -1078,6 +1092,14 @@ class Ctx(object):
             if rr == "unsat":
                 self.stats.queries["unsat"] += 1
                 return True
+            if rr == "sat":
+                # a model of the reduced hypothesis set: a candidate for the replay to settle
+                mm = sx.model()
+                part = {d.name(): model_value(mm[d]) for d in mm.decls() if d.arity() == 0}
+                self.stats.queries["sat"] += 1
+                self.results.append(Result(label, "sat", dict(self.model_inputs(mm), **part), time.time() - t0,
+                                           list(self.prefix[:self.pos]), "model of the reduced hypothesis set"))
+                return False
         r, m = self.solve(z3.Not(g))
         self.stats.queries[r] += 1
         if r == "unsat":
@@ -1169,6 +1191,13 @@ class Ctx(object):
     def fail(self, label, detail=None):
         """path-level failure (e.g. undeclared exception): candidate iff pc is sat"""
         return self.check(label, False, detail)
+
+    def drop_obligations(self, reason):
+        """forget the pending domain obligations of this path: they belong to code that is
+        decided in another configuration (named in `reason`, recorded in the evidence)"""
+        if self.obligs:
+            self.notes.setdefault("dropped_obligations", set()).add(reason)
+        self.obligs = []
 
     def assume_obligations(self, only=None):
         """turn the pending domain obligations (non-zero denominators, non-negative
@@ -1303,6 +1332,7 @@ def explore(harness, cfg=None, max_paths=20000, time_budget=None, feas_timeout_m
              max_paths=max_paths, deadline=deadline)
     pending = [[]]
     inconclusive = []
+    reach_unknown = [0]
     t_start = time.time()
     exhausted = True
     while pending:
@@ -1355,6 +1385,9 @@ def explore(harness, cfg=None, max_paths=20000, time_budget=None, feas_timeout_m
         if outcome in ("ok", "exc") and cx.checks_on_path:
             if cx.stats.paths_confirmed_sat < 3 or len(cx.samples) < max_samples:
                 r = cx.confirm_reachable()
+                if r == "unknown":
+                    cx.notes["reach_unknown"] = True
+                    reach_unknown[0] += 1
                 if r == "sat":
                     cx.stats.paths_confirmed_sat += 1
                     if len(cx.samples) < max_samples:
@@ -1362,6 +1395,8 @@ def explore(harness, cfg=None, max_paths=20000, time_budget=None, feas_timeout_m
                             "cfg": repr(cfg), "decisions": len(cx.prefix),
                             "pc": [str(p).replace("\n", " ")[:160] for p in cx.pc[:12]],
                             "outcome": outcome})
+    if cx.stats.paths_confirmed_sat == 0 and reach_unknown[0]:
+        inconclusive.append("reachability twin undecided (solver unknown on the path condition): vacuity not excluded")
     out = {
         "cfg": repr(cfg),
         "stats": cx.stats.as_dict(),
